@@ -76,7 +76,7 @@ def gen_plan(seed: int, tier: str) -> dict:
         return {"mode": "ble-func", "fsize": fsize, "blen": max(0, blen), "enc": enc, "rlen": r.choice([0, 1, blen, aimed, aimed, r.randrange(0, 400), r.randrange(0, 3000)]),
                 "no_body": r.random() < 0.1, "policy": r.choice(["max", "max", "header_only_first", "tiny", "random"]), "fault": r.choice([None] * 6 + ["wrong_tid", "no_cont_flag", "wrong_cont_tid"]),
                 "status": r.choice([0] * 8 + [1, 3, 6]), "reps": r.choice([1, 2, 3]), "ops": []}
-    return {"mode": "ble-full", "mtu": r.choice([23, 100, 158, 185, 247, 512]), "wwr": r.choice([0, 0, 20, 182, 244, 509]), "vlen": r.choice([0, 1, 2, 60, 90, 97, 200, 600, r.randrange(0, 3000)]),
+    return {"mode": "ble-full", "mtu": r.choice([23, 100, 158, 185, 247, 512]), "wwr": r.choice([0, 0, 20, 182, 244, 509]), "vlen": r.choice([0, 1, 2, 60, 90, 97, 200, 254, 255, 256, 510, 600, 765, r.randrange(0, 3000)]),
             "policy": r.choice(["max", "header_only_first", "random"]), "drop_at": r.choice([None] * 5 + [r.randrange(20, 120)]), "ops": []}
 
 
